@@ -3602,6 +3602,12 @@ impl Zeroconf {
 
         let now = current_time_millis();
         if !repeating {
+            // A new browse of the same type replaces the earlier one, including its
+            // pending retransmission, so that only one query schedule exists.
+            self.retransmissions.retain(
+                |rerun| !matches!(&rerun.command, Command::Browse(t, _, _, _) if t == &ty),
+            );
+
             // Binds a `listener` to querying mDNS domain type `ty`.
             //
             // If there is already a `listener`, it will be updated, i.e. overwritten.
